@@ -35,15 +35,6 @@ func verifC40Under(p string) bool {
 	return verifrt.And(ok, p[2] == '/')
 }
 
-// verifC40Confined: the raw path p, as the operating system would resolve it
-// lexically (path.Clean), is R or below R.
-func verifC40Confined(p string) bool {
-	return verifrt.MergeBool(func() bool {
-		c := path.Clean(p)
-		return verifC40Under(c)
-	})
-}
-
 // verifC40Bytes: n bytes, each one of '/', '.', 'a', 'o' or the free byte.
 func verifC40Bytes(n int, free byte) string {
 	b := verifrt.NondetBytes(n)
